@@ -73,9 +73,16 @@ type extT struct {
 	V string // JSON text
 }
 
+// fcaseT: Formatter.Format called directly (the errors package's own API, no app, no HTTP)
+type fcaseT struct {
+	F   fmtT
+	Err errT
+}
+
 type caseT struct {
 	A *acaseT `json:",omitempty"`
 	M *mcaseT `json:",omitempty"`
+	F *fcaseT `json:",omitempty"`
 }
 
 // ---------------------------------------------------------------- JSON helpers
@@ -718,6 +725,46 @@ func emitM(id string, k mcaseT, st *hx.Stats) string {
 	return l.String() + hx.Comment(caseT{M: &k})
 }
 
+func emitF(id string, k fcaseT, st *hx.Stats) string {
+	const path = "/direct/format"
+	l := hx.NewLine(id).Tok("F").Str(path)
+	el := hx.NewLine("")
+	depth, caps := 0, 0
+	statuses := map[int]bool{500: true}
+	encErr(el, k.Err, &depth, &caps, statuses)
+	if k.F.StatusRes != nil {
+		statuses[*k.F.StatusRes] = true
+	}
+	sts := make([]int, 0, len(statuses))
+	for s := range statuses {
+		sts = append(sts, s)
+	}
+	sort.Ints(sts)
+	l.Nat(len(sts))
+	for _, s := range sts {
+		l.Nat(s).Str(http.StatusText(s))
+	}
+	encFmt(l, k.F)
+	l.Tok(strings.TrimSpace(el.String()))
+	in := l.String()
+	l.Sep()
+	func() {
+		defer func() {
+			if r := recover(); r != nil {
+				l.Tok("P")
+			}
+		}()
+		resp := k.F.build().Format(httptest.NewRequest(http.MethodGet, path, nil), k.Err.build())
+		l.Tok("R").Nat(resp.Status).Str(resp.ContentType)
+		encJSON(l, blankIDs(canonOf(resp.Body)))
+	}()
+	if st != nil {
+		st.Case(in[len(id):], depth >= 3 || caps >= 2)
+		st.Count("format_direct_" + k.F.Kind)
+	}
+	return l.String() + hx.Comment(caseT{F: &k})
+}
+
 func main() {
 	slog.SetDefault(slog.New(slog.NewTextHandler(io.Discard, nil)))
 	a := hx.ParseArgs()
@@ -745,6 +792,8 @@ func main() {
 		for i := 0; i < a.N; i++ {
 			if r.Chance(1, 8) {
 				fmt.Fprintln(w, emitM(fmt.Sprintf("c06-m-%d-%d", a.Seed, i), g.mcase(), st))
+			} else if r.Chance(1, 8) {
+				fmt.Fprintln(w, emitF(fmt.Sprintf("c06-f-%d-%d", a.Seed, i), fcaseT{F: g.fmt(), Err: g.err(0)}, st))
 			} else {
 				fmt.Fprintln(w, emitA(fmt.Sprintf("c06-a-%d-%d", a.Seed, i), g.acase(), st))
 			}
@@ -763,6 +812,8 @@ func main() {
 				fmt.Fprintln(w, emitA(id, *k.A, nil))
 			case k.M != nil:
 				fmt.Fprintln(w, emitM(id, *k.M, nil))
+			case k.F != nil:
+				fmt.Fprintln(w, emitF(id, *k.F, nil))
 			}
 		}
 	}
